@@ -70,7 +70,7 @@ AlwaysBreakAfter(nd) == nd.k = "void" /\ nd.name \in {"br", "hr"}
 SetWs(nd, d) ==
     CASE nd.k = "text" -> [k |-> "text", w |-> nd.w, tr |-> d, sp |-> HasSp(nd)]
       [] nd.k \in {"expr", "void", "el"} -> [nd EXCEPT !.tr = d]
-      [] nd.k \in {"slot", "hcomment", "mcomment", "raw", "call"} -> [nd EXCEPT !.after = d]
+      [] nd.k \in {"slot", "hcomment", "mcomment", "raw", "call", "callb"} -> [nd EXCEPT !.after = d]
       [] OTHER -> nd      \* line-start nodes always end their line
 
 Decision(nodes, i, indent, loose) ==
